@@ -162,7 +162,7 @@ def scenarios(ctx):
         name = 'v%d-t%d-bw%d-f%d-%s' % (v, t, b, f, pk)
         out.append(Pub('pub-' + name, pk, profile='pub', init=init, connects=[(False, 0, v)], reconnects=[(False, 0, v)],
                        pub_qos=(1, 2), jits=(0.75, 0.0),
-                       budgets=dict(pub=2, ack=1 if q else 2, tick=3 if q else 6, jit=1 if q else 2, lose=1, rebuild=1, connect=1,
+                       budgets=dict(pub=2, ack=1 if q else 2, dack=1, tick=3 if q else 6, jit=1 if q else 2, lose=1, rebuild=1, connect=1,
                                     connack=1, setwin=0 if q else 1), windows=(1, 3)))
         out.append(Std('sub-' + name, profile='sub', init=init[:3] + (('setwin', 0, 2),), connects=[(False, 0, v)],
                        jits=(0.75, 0.0),
